@@ -30,7 +30,7 @@ from ._logger import QuietLogger, log
 from ._protocol.incoming import DNSIncoming
 from ._transport import _WrappedTransport, make_wrapped_transport
 from ._utils.time import current_time_millis, millis_to_seconds
-from .const import _DUPLICATE_PACKET_SUPPRESSION_INTERVAL, _MAX_MSG_ABSOLUTE
+from .const import _DUPLICATE_PACKET_SUPPRESSION_INTERVAL, _MAX_MSG_ABSOLUTE, _MDNS_PORT
 
 if TYPE_CHECKING:
     from ._core import Zeroconf
@@ -118,7 +118,15 @@ class AsyncListener:
             and (now - _DUPLICATE_PACKET_SUPPRESSION_INTERVAL) < self.last_time
             and self.last_message is not None
         )
-        if duplicate and not (self.last_message.is_query() and self.last_message.has_qu_question()):
+        if duplicate and not (
+            self.last_message.is_query()
+            and (
+                self.last_message.has_qu_question()
+                # The same bytes from another legacy (unicast) resolver are that
+                # resolver's own query: it is still owed its unicast reply
+                or (addrs[1] != _MDNS_PORT and self.last_addrs != addrs)
+            )
+        ):
             # Guard against duplicate packets, only a query with a unicast
             # question is let through again since it may have to be answered
             # by unicast once more (nothing else is done for it a second
